@@ -679,10 +679,189 @@ static bool sbml_fragment(const Basic &e)
     return true;
 }
 
-enum { K_STATES, K_CONS_REFUSED, K_PRINTS, K_MATHML_REFUSAL_OK, K_SBML_ROUNDTRIP, K_SBML_OUTSIDE, K_MATHML_CHECKED, K_LATEX_CHECKED, K_UNICODE_CHECKED, K_JULIA_CHECKED };
+enum { K_STATES, K_CONS_REFUSED, K_PRINTS, K_MATHML_REFUSAL_OK, K_SBML_ROUNDTRIP, K_SBML_OUTSIDE, K_MATHML_CHECKED, K_LATEX_CHECKED, K_UNICODE_CHECKED, K_JULIA_CHECKED, K_SBML_CHECKED, K_SBML_UNSTABLE };
 static std::vector<std::string> CN = {"expressions_printed", "constructor_refused(exception)", "printer_calls", "mathml_refusals_on_unsupported_types(allowed)",
                                       "sbml_round_trips_checked", "sbml_outside_fragment(not_round_tripped)", "mathml_outputs_parsed", "latex_outputs_checked",
-                                      "unicode_outputs_checked", "julia_outputs_checked"};
+                                      "unicode_outputs_checked", "julia_outputs_checked", "sbml_outputs_checked", "sbml_round_trip_skipped(term_not_stable_under_reconstruction)"};
+
+// classify a checker message into a defect class (used in signatures)
+static std::string errclass(const std::string &m)
+{
+    static const std::vector<std::pair<std::string, std::string>> T = {
+        {"bare '&'", "unescaped-ampersand"}, {"illegal tag name", "unescaped-lt-or-bad-tag"}, {"closing tag", "tag-mismatch"}, {"unclosed element", "unclosed-element"},
+        {"document has", "root-count"}, {"text outside", "text-outside-root"}, {"invalid UTF-8", "invalid-utf8"}, {"\\left not followed", "illegal-delimiter"},
+        {"\\right not followed", "illegal-delimiter"}, {"\\right without", "left-right-mismatch"}, {"double ", "double-script"}, {"unclosed ", "unclosed-group"},
+        {"'}' closes", "group-mismatch"}, {"line ", "line-width"}, {"unbalanced", "unbalanced-bracket"}, {"empty output", "empty"}, {"\\end{", "environment-mismatch"}};
+    for (auto &t : T)
+        if (m.find(t.first) != std::string::npos)
+            return t.second;
+    return "other";
+}
+static bool has_node(const Basic &e, bool (*pred)(const Basic &))
+{
+    if (pred(e))
+        return true;
+    for (auto &a : e.get_args())
+        if (has_node(*a, pred))
+            return true;
+    return false;
+}
+static bool short_double(double d)
+{
+    if (!std::isfinite(d))
+        return false;
+    char b[64];
+    snprintf(b, sizeof b, "%.15g", d);
+    return strtod(b, nullptr) == d;
+}
+static bool sbml_doubles_ok(const Basic &e)
+{
+    if (is_a<RealDouble>(e))
+        return short_double(down_cast<const RealDouble &>(e).i);
+    for (auto &a : e.get_args())
+        if (!sbml_doubles_ok(*a))
+            return false;
+    return true;
+}
+static bool stable(const B &e);
+static const char *PRN[] = {"latex", "mathml", "unicode", "julia", "sbml", "sbml-roundtrip"};
+struct Fail {
+    std::string cls, msg, out; // cls empty: fine; "refusal-allowed"; otherwise a defect class
+};
+// run printer p (5 = SBML round trip) on e and judge the output
+static Fail judge(int p, const B &e)
+{
+    Fail f;
+    try {
+        switch (p) {
+            case 0:
+                f.out = latex(*e);
+                break;
+            case 1:
+                f.out = mathml(*e);
+                break;
+            case 2:
+                f.out = unicode(*e);
+                break;
+            case 3:
+                f.out = julia_str(*e);
+                break;
+            default:
+                f.out = sbml(*e);
+        }
+    } catch (SymEngineException &x) {
+        if (p == 1 && !all_nodes(*e, mathml_supported_node)) {
+            f.cls = "refusal-allowed";
+            return f;
+        }
+        f.cls = "refuses";
+        f.msg = std::string("throws '") + x.what() + "' although every node type is in the printer's supported list";
+        return f;
+    } catch (std::exception &x) {
+        f.cls = "std-exception";
+        f.msg = std::string("throws non-library exception ") + x.what();
+        return f;
+    }
+    std::string err;
+    bool has_interval = has_node(*e, [](const Basic &b) { return is_a<Interval>(b); });
+    switch (p) {
+        case 0:
+            err = latex_check(f.out);
+            break;
+        case 1:
+            err = xml_check(f.out);
+            break;
+        case 2:
+            err = unicode_check(f.out);
+            break;
+        case 3:
+        case 4:
+            err = has_interval ? (f.out.empty() ? "empty output" : "") : bracket_check(f.out); // "[a, b)" is legitimate
+            break;
+        default: {
+            if (!sbml_fragment(*e) || !sbml_doubles_ok(*e)) {
+                f.cls = "outside-fragment";
+                return f;
+            }
+            if (!stable(e)) {
+                f.cls = "unstable-term";
+                return f;
+            }
+            try {
+                B back = parse_sbml(f.out);
+                if (key(*back) != key(*e) && !eq(*back, *e)) {
+                    f.cls = "roundtrip";
+                    f.msg = "parses back to " + sstr(back) + " [" + key(*back).substr(0, 150) + "], the expression is [" + key(*e).substr(0, 150) + "]";
+                }
+            } catch (std::exception &x) {
+                f.cls = "roundtrip-parse-error";
+                f.msg = std::string("does not parse: ") + x.what();
+            }
+            return f;
+        }
+    }
+    if (!err.empty()) {
+        f.cls = "ill-formed:" + errclass(err);
+        f.msg = err;
+    }
+    return f;
+}
+// smallest sub-term that already shows the same failure (one defect -> one signature)
+static B culprit(int p, const B &e, const std::string &cls)
+{
+    for (auto &a : e->get_args()) {
+        Fail f = judge(p, a);
+        if (f.cls == cls)
+            return culprit(p, a, cls);
+    }
+    return e;
+}
+// known root causes get their own tag so that one defect gives one signature
+static std::string tags(const Basic &e, const std::string &cls)
+{
+    if (cls == "ill-formed:line-width" && has_node(e, [](const Basic &b) { return is_a<Complex>(b) || is_a<ComplexDouble>(b); }))
+        return "[Complex]";
+    if (cls.rfind("roundtrip", 0) == 0 && has_node(e, [](const Basic &b) { return is_a<Infty>(b) && down_cast<const Infty &>(b).is_negative_infinity(); }))
+        return "[NegInf]";
+    if (cls.rfind("ill-formed:unescaped", 0) == 0 || cls == "ill-formed:tag-mismatch")
+        if (has_node(e, [](const Basic &b) {
+                if (!is_a<Symbol>(b))
+                    return false;
+                for (char c : down_cast<const Symbol &>(b).get_name())
+                    if (!isalnum((unsigned char)c) && c != '_')
+                        return true;
+                return false;
+            }))
+            return "[special-name]";
+    return "";
+}
+// a term is stable when rebuilding every node from its arguments gives the same node (C03's subject);
+// unstable terms (e.g. 2 + ceiling(pi)) cannot round-trip through any parser
+static bool stable(const B &e)
+{
+    vec_basic args = e->get_args();
+    for (auto &a : args)
+        if (!stable(a))
+            return false;
+    B r = e;
+    try {
+        if (is_a<Add>(*e))
+            r = add(args);
+        else if (is_a<Mul>(*e))
+            r = mul(args);
+        else if (is_a<Pow>(*e))
+            r = pow(args[0], args[1]);
+        else if (auto f1 = dynamic_cast<const OneArgFunction *>(e.get()))
+            r = f1->create(args[0]);
+        else if (auto f2 = dynamic_cast<const TwoArgFunction *>(e.get()))
+            r = f2->create(args[0], args[1]);
+        else if (auto fm = dynamic_cast<const MultiArgFunction *>(e.get()))
+            r = fm->create(args);
+    } catch (std::exception &) {
+        return false;
+    }
+    return key(*r) == key(*e);
+}
 
 static void check_state(const B &e, const std::string &recipe, Ctx &c, bool sample)
 {
@@ -690,80 +869,38 @@ static void check_state(const B &e, const std::string &recipe, Ctx &c, bool samp
     std::string top = type_code_name(e->get_type_code());
     if (e->get_args().size() > 0)
         c.nontrivial();
-    struct P {
-        const char *name;
-        std::function<std::string()> f;
-    };
-    std::vector<P> PR = {{"latex", [&] { return latex(*e); }}, {"mathml", [&] { return mathml(*e); }}, {"unicode", [&] { return unicode(*e); }},
-                         {"julia", [&] { return julia_str(*e); }}, {"sbml", [&] { return sbml(*e); }}};
-    std::string outs[5];
-    for (int p = 0; p < 5; p++) {
+    std::string outs[6];
+    static const int CHK[] = {K_LATEX_CHECKED, K_MATHML_CHECKED, K_UNICODE_CHECKED, K_JULIA_CHECKED, K_SBML_CHECKED, K_SBML_ROUNDTRIP};
+    for (int p = 0; p < 6; p++) {
         c.eval();
-        c.count(K_PRINTS);
-        bool ok = false;
-        try {
-            outs[p] = PR[p].f();
-            ok = true;
-        } catch (SymEngineException &x) {
-            bool allowed = p == 1 && !all_nodes(*e, mathml_supported_node);
-            if (allowed) {
-                c.count(K_MATHML_REFUSAL_OK);
-                c.outcome("mathml-refusal:" + top);
-            } else
-                c.violation(std::string(PR[p].name) + ":refuses:" + top,
-                            std::string(PR[p].name) + "(" + recipe + " = " + sstr(e) + ") throws '" + x.what() + "' although every node type is in the printer's supported list");
-        } catch (std::exception &x) {
-            c.violation(std::string(PR[p].name) + ":std-exception:" + top, std::string(PR[p].name) + "(" + recipe + " = " + sstr(e) + ") throws non-library exception " + x.what());
-        }
-        if (!ok)
+        if (p < 5)
+            c.count(K_PRINTS);
+        Fail f = judge(p, e);
+        outs[p] = f.out;
+        if (f.cls.empty()) {
+            c.count(CHK[p]);
+            c.outcome(std::string(PRN[p]) + ":" + top);
             continue;
-        std::string err;
-        switch (p) {
-            case 0:
-                err = latex_check(outs[p]);
-                c.count(K_LATEX_CHECKED);
-                break;
-            case 1:
-                err = xml_check(outs[p]);
-                c.count(K_MATHML_CHECKED);
-                break;
-            case 2:
-                err = unicode_check(outs[p]);
-                c.count(K_UNICODE_CHECKED);
-                break;
-            case 3:
-                err = bracket_check(outs[p]);
-                c.count(K_JULIA_CHECKED);
-                break;
-            default:
-                err = bracket_check(outs[p]);
         }
-        if (!err.empty()) {
-            std::string cls = err.substr(0, err.find_first_of(":(0123456789'\\<"));
-            while (!cls.empty() && cls.back() == ' ')
-                cls.pop_back();
-            c.violation(std::string(PR[p].name) + ":ill-formed:" + cls + ":" + top,
-                        std::string(PR[p].name) + "(" + recipe + " = " + sstr(e) + ") = " + outs[p].substr(0, 300) + "  -- " + err);
-        } else
-            c.outcome(std::string(PR[p].name) + ":" + top);
-    }
-    // SBML round trip on the SBML fragment
-    if (!outs[4].empty()) {
-        if (sbml_fragment(*e)) {
-            c.eval();
-            c.count(K_SBML_ROUNDTRIP);
-            try {
-                B back = parse_sbml(outs[4]);
-                if (key(*back) != key(*e) && !eq(*back, *e))
-                    c.violation("sbml:roundtrip:" + top, "parse_sbml(sbml(" + recipe + ")) : sbml = '" + outs[4] + "' parses to " + sstr(back) + " [" + key(*back).substr(0, 150)
-                                                             + "] but the expression is " + sstr(e) + " [" + key(*e).substr(0, 150) + "]");
-                else
-                    c.outcome("sbml-roundtrip:" + top);
-            } catch (std::exception &x) {
-                c.violation("sbml:roundtrip-parse-error:" + top, "parse_sbml(sbml(" + recipe + ")) : sbml = '" + outs[4] + "' does not parse: " + x.what());
-            }
-        } else
+        if (f.cls == "refusal-allowed") {
+            c.count(K_MATHML_REFUSAL_OK);
+            c.outcome("mathml-refusal:" + top);
+            continue;
+        }
+        if (f.cls == "outside-fragment") {
             c.count(K_SBML_OUTSIDE);
+            continue;
+        }
+        if (f.cls == "unstable-term") {
+            c.count(K_SBML_UNSTABLE);
+            continue;
+        }
+        B m = culprit(p, e, f.cls);
+        c.outcome(std::string(PRN[p]) + ":" + f.cls);
+        std::string tg = tags(*m, f.cls);
+        c.violation(std::string(PRN[p]) + ":" + f.cls + ":" + (tg.empty() ? type_code_name(m->get_type_code()) : tg),
+                    std::string(PRN[p]) + "(" + recipe + " = " + sstr(e) + ") = '" + f.out.substr(0, 300) + "'  -- " + f.msg
+                        + (m.get() != e.get() ? "; smallest failing sub-term: " + sstr(m) : ""));
     }
     if (sample)
         c.sample("{\"expr\":" + jstr(recipe) + ",\"latex\":" + jstr(outs[0].substr(0, 80)) + ",\"mathml\":" + jstr(outs[1].substr(0, 80)) + ",\"sbml\":" + jstr(outs[4].substr(0, 60)) + "}");
@@ -774,13 +911,30 @@ static void run_layer(Layer &L, const std::string &name, std::set<long long> &ba
     CaseSet cs;
     cs.name = name;
     cs.n = L.total;
-    cs.hang_s = 10;
+    cs.hang_s = 60;
     cs.counter_names = CN;
     cs.desc = [&](long long i) { return recipe_of(L, i); };
     cs.crash_sig = [&](long long i, const std::string &oc) {
         std::vector<int> a;
         const Plan &p = L.decode(i, a);
-        return std::string(oc.find("hang") != std::string::npos ? "hang" : "crash") + ":printing " + CONS[p.con].name;
+        // does the constructor alone already crash?  (then it is not a printer defect)
+        std::vector<B> args;
+        for (int k : a)
+            args.push_back(S[k].e);
+        fflush(stdout);
+        pid_t pid = fork();
+        if (pid == 0) {
+            alarm(20);
+            try {
+                CONS[p.con].mk(args);
+            } catch (...) {
+            }
+            _exit(0);
+        }
+        int st = 0;
+        waitpid(pid, &st, 0);
+        bool cons = !(WIFEXITED(st) && WEXITSTATUS(st) == 0);
+        return std::string(oc.find("hang") != std::string::npos ? "hang" : "crash") + (cons ? ":constructor " : ":printing ") + CONS[p.con].name;
     };
     cs.body = [&](long long i, Ctx &c) {
         std::vector<int> a;
